@@ -31,7 +31,7 @@ import (
 
 // Step is one API call. T>=1: a call on transaction slot T. T==0: an environment step.
 //
-//	transaction ops:  begin | get:<k> | scan | set:<k> | setn:<k>:<len> | del:<k> |
+//	transaction ops:  begin | beginro (read-only) | get:<k> | scan | set:<k> | setn:<k>:<len> | del:<k> |
 //	                  commit | commitwith | commitbg | join | discard
 //	environment ops:  rf (rotate + flush all) | compact (L0->base move + ingest drain) |
 //	                  throttle-on | throttle-off | close | reopen
@@ -296,13 +296,13 @@ func (x *Exec) txnStep(ti int, op string) (err error) {
 	}()
 	t := x.txns[ti]
 	f := strings.Split(op, ":")
-	if f[0] == "begin" {
+	if f[0] == "begin" || f[0] == "beginro" {
 		if t != nil && t.open {
 			return errors.New("begin on an open slot")
 		}
 		t = &txnState{pending: map[string]*wr{}, rejected: map[string]bool{}, readKeys: map[string]string{}, observed: map[string]bool{}}
 		x.txns[ti] = t
-		t.t = x.db().NewTransaction(true)
+		t.t = x.db().NewTransaction(f[0] == "begin") // beginro: read-only transaction
 		t.open = true
 		t.readTs = t.t.ReadTs()
 		if _, readDone, _, _, _ := x.db().VerifOracleInfo(); readDone >= t.readTs {
